@@ -219,7 +219,7 @@ class World:
             value = r.value
         except PyRaise as pr:
             outcome, value = "raise", pr.exc
-        if gen:
+        if gen and outcome == "normal":
             value = ex.yields
         fr.vars["result"] = value
         ex.spec_mode += 1
